@@ -103,28 +103,33 @@ theorem lowerSimple_sim (W : World U V) (hS : LawfulSeq W) (cx : Ctx) (hn : cx.n
                 exact ⟨⟨t, Seq.cons (.walrus x value hxn fv) (Seq.nil W _ _)⟩, sameFlags_refl _⟩
               | attr o a _ _ => simp at hcond
               | sub o i _ _ _ => simp at hcond
-              | @tuple elts _ items _ u1 _ hit hlen heach =>
+              | @tuple elts _ items vals _ u1 _ hit hvals heach =>
                 cases hst with
-                | tuple _ hallE =>
+                | tuple _ hallE hsc =>
                   simp only [assignAuto] at ha
                   obtain ⟨⟨rest, st3⟩, hr, ha⟩ := bind_ok ha
                   cases pure_ok ha
                   have htmp := isTemp_fresh st "assign"
-                  obtain ⟨t', hseq, _, _, hfl⟩ := assignElts_pure W hS hn elts hallE heach (st.fresh "assign").1 htmp items 0 (fun j => by simp)
+                  obtain ⟨t', hseq, _, _, hfl⟩ := assignElts_pure W hS hn elts hallE heach (st.fresh "assign").1 htmp items vals elts.length (starIndex elts)
+                    hvals 0 (by simp) (starAt_init elts hsc) (fun j => by simp) false (by simp)
                     [(st.fresh "assign").1] (((st.fresh "assign").1, W.tupleOf items) :: t) (st.fresh "assign").2 (liveOk_single st "assign")
-                    (by simp) (lookup_head _ _ _) elts.length rest st3 hr
+                    (by simp) (lookup_head _ _ _) rest st3 hr
                   exact ⟨⟨t', Seq.cons (.walrusT _ _ htmp (.tupleCall value fv hit)) hseq⟩, sameFlags_trans hfl (sameFlags_fresh _ _)⟩
-              | @list elts _ items _ u1 _ hit hlen heach =>
+              | @list elts _ items vals _ u1 _ hit hvals heach =>
                 cases hst with
-                | list _ hallE =>
+                | list _ hallE hsc =>
                   simp only [assignAuto] at ha
                   obtain ⟨⟨rest, st3⟩, hr, ha⟩ := bind_ok ha
                   cases pure_ok ha
                   have htmp := isTemp_fresh st "assign"
-                  obtain ⟨t', hseq, _, _, hfl⟩ := assignElts_pure W hS hn elts hallE heach (st.fresh "assign").1 htmp items 0 (fun j => by simp)
+                  obtain ⟨t', hseq, _, _, hfl⟩ := assignElts_pure W hS hn elts hallE heach (st.fresh "assign").1 htmp items vals elts.length (starIndex elts)
+                    hvals 0 (by simp) (starAt_init elts hsc) (fun j => by simp) false (by simp)
                     [(st.fresh "assign").1] (((st.fresh "assign").1, W.tupleOf items) :: t) (st.fresh "assign").2 (liveOk_single st "assign")
-                    (by simp) (lookup_head _ _ _) elts.length rest st3 hr
+                    (by simp) (lookup_head _ _ _) rest st3 hr
                   exact ⟨⟨t', Seq.cons (.walrusT _ _ htmp (.tupleCall value fv hit)) hseq⟩, sameFlags_trans hfl (sameFlags_fresh _ _)⟩
+              | starred sub hin =>
+                simp only [assignAuto] at ha
+                cases ha
           | t1 :: t2 :: rest, _, _, _, hcond, _ => simp at hcond
   | augName x op value hxn hload hval hiop =>
       cases hs with
@@ -307,8 +312,9 @@ mutual
             obtain ⟨i', _, h⟩ := bind_ok h
             cases pure_ok h
             exact sameFlags_trans (sameFlags_fresh _ _) (sameFlags_trans (sameFlags_fresh _ _) (sameFlags_fresh _ _))
-          | tuple _ _ => cases h
-          | list _ _ => cases h
+          | tuple _ _ _ => cases h
+          | list _ _ _ => cases h
+          | starred _ _ => cases h
     | .while_ .., _, _, _, hs, _, _, _, _ => by cases hs
     | .for_ .., _, _, _, hs, _, _, _, _ => by cases hs
     | .break_, _, _, _, hs, _, _, _, _ => by cases hs
